@@ -31,6 +31,7 @@ type FuncContract struct {
 	renameMap  map[string]string // names.go: the renames applied to this contract (recorded -> current)
 	UnrenameText [][2]string // names.go: (current callee text, recorded callee name) for calls that now go through an indexed function value
 	SiteMap    map[string]int // names.go: current "callee#m" -> recorded site ordinal n whose stepping stones apply there (statements reordered)
+	LoopUnperm map[int]int // names.go: current loop ordinal -> recorded ordinal (independent loops reordered)
 	Unrename   map[string]string // names.go: current identifier -> identifier the contract was written with
 	NoPanic    bool
 	AssumeNoPanic map[string]string // callee -> reason: taken not to panic when called from this nopanic function
